@@ -14,7 +14,7 @@ from .. import refgeo as rg
 from leuvenmapmatching.util import dist_euclidean as de
 
 ID = "C13"
-CASES = {"quick": 24000, "thorough": 1200000}
+CASES = {"quick": 100000, "thorough": 2000000}
 MIN_CASES_PER_SHARD = 500
 CASE_TIMEOUT = 10
 RULE = ("one case = one generated planar configuration (4 points for segment/segment, 3 for "
@@ -320,7 +320,7 @@ def check_case(ctx, case):
         ctx.nontriv([case["pts"], case["r"]])
 
 TECHNIQUE = "runtime monitoring: reference-model oracle (exact rational geometry) over generated hostile calls of the real primitives"
-LEVEL_TEXT = ("Every call of the real planar primitives on ~24k (quick) / 1.2M (thorough) generated configurations from 21 named "
+LEVEL_TEXT = ("Every call of the real planar primitives on {Q} (quick) / {T} (thorough) generated configurations from 21 named "
               "degenerate classes, scales 2^-10..2^24 and offsets to 1e7 is judged against exact rational arithmetic; "
               "held-on-observed, not a proof. Exploration is the right level: the property is a numeric contract on pure "
               "functions whose failures are input-class specific (parallel, collinear, zero-length, near-parallel).")
